@@ -404,11 +404,23 @@ func (gme *GCPMultiEndpoint) UpdateMultiEndpoints(meOpts *GCPMultiEndpointOption
 		}
 	}
 
-	// Trigger status update.
+	// Trigger status update. Every MultiEndpoint is told about its endpoints in its own priority
+	// order: a new MultiEndpoint that heard of a lower-priority endpoint first (map order) moved
+	// there and, with a switching delay, came back to the better one only after the delay although
+	// both pools had been READY all the time.
+	ready := make(map[string]bool, len(gme.pools))
 	for e, mc := range gme.pools {
-		s := mc.conn.GetState()
-		for _, me := range gme.mes {
-			me.SetEndpointAvailability(e, s == connectivity.Ready)
+		ready[e] = mc.conn.GetState() == connectivity.Ready
+	}
+	for name, me := range gme.mes {
+		meo := meOpts.MultiEndpoints[name]
+		if meo == nil {
+			continue
+		}
+		for _, e := range meo.Endpoints {
+			if r, ok := ready[e]; ok {
+				me.SetEndpointAvailability(e, r)
+			}
 		}
 	}
 	return nil
